@@ -2,6 +2,7 @@
 import templates as T
 import panic as PN
 import enc as ENC
+import nibble as NIB
 from facts import tokens, fmt, short, walk, strip_sites
 
 CRATES = ["snap_dataplane", "sciparse", "snap_tun"]
@@ -15,7 +16,10 @@ EXPLANATION = (
     "with from.ip() of the same `from` that was handed to the tunnel server, and is dominated by that Ok edge. "
     "(3) The SCMP reply is built once per rejected datagram, on the Err edge, with the checked try_encode (no "
     "encode_unchecked in the gateway). (4) PANIC: no undischarged panic site in the call graph of the filter, the SCMP "
-    "construction and the packet-meta observers."
+    "construction and the packet-meta observers. (5) TBL-nibble: the host address type/length nibble tables "
+    "(WireHostAddrType::from(u8), ::size(), into u8), extracted over all byte values, satisfy size(from(n)) == ((n & 3) + 1) * 4 "
+    "and encode(decode(n)) == n for every nibble — the source-address comparison of the filter reads the source host at an offset "
+    "derived from these sizes."
 )
 RESIDUAL = ["equivalence with an independent decision procedure on all byte strings (address-type aliasing is covered only via C02/C03 tables)"]
 ASSUMPTIONS = ["tokio/quinn/ana-gotatun internals do not dispatch datagrams into SCION on their own"]
@@ -151,6 +155,7 @@ def run(F, R, tier, cfg):
     ENC.install()
     PN.check_entries(F, R, "C08", sorted(set(entries)), cfg)
     ENC.hostlen_rule(F, R)
+    NIB.nibble_rules(F, R)
 
 
 def _unref(t):
